@@ -224,8 +224,12 @@ def op_fork(w, ins):
     tmp = Mgr(1, 'raw', nb, nb)
     tmp.term_base = g.term_base      # the manager's own reference to the terminal
     a, b = w.snapshot(0), w.snapshot(tmp)
-    if a.order != b.order or a.succ != b.succ or a.refs != b.refs:
-        w.fail('wrong_result', 'copy.copy(manager) does not reproduce order, nodes and counts', ['C11'])
+    if a.order != b.order or a.succ != b.succ:
+        w.fail('wrong_result', 'copy.copy(manager) does not reproduce the order and the nodes', ['C11', 'C02'])
+    if a.refs != b.refs:
+        # the copy holds the same nodes with other counts: the next collection
+        # in it frees nodes that stored edges and handles still point to
+        w.fail('I-count', 'copy.copy(manager): the copy has the same nodes but different reference counts', ['C11', 'C02', 'C06'])
     w.mgrs[1] = tmp
     for s_ in list(w.slots_of(0)):
         w.add_slot(1, s_.ref, s_.tt)
